@@ -68,15 +68,15 @@ READER_ACTIONS = ["Call", "RMBytes", "RMEof", "RMErr", "RMOverrun", "Return", "A
                   "SetMark", "SetMarkTo", "SetChunk", "CheckIoError"]
 
 
-def reader_histories(rep, tier, seed, prefix, panics, shards, per_shard, ops=40, maxlen=48):
+def reader_histories(rep, tier, seed, prefix, panics, shards, per_shard, ops=40, maxlen=48, scan=0, release=False):
     _clean_traces(prefix)
     paths = []
     procs = []
-    exe = vlib.build_harness(False)
+    exe = vlib.build_harness(release)
     for s in range(shards):
         p = os.path.join(TRACES, "%s%d.ndjson" % (prefix, s))
         paths.append(p)
-        cmd = [exe, "reader-hist", "--out", p, "--seed", str(seed), "--first", str(s * per_shard),
+        cmd = [exe, "reader-hist", "--scan", str(scan), "--out", p, "--seed", str(seed), "--first", str(s * per_shard),
                "--count", str(per_shard), "--ops", str(ops), "--len", str(maxlen)] + (["--panics"] if panics else [])
         procs.append(subprocess.Popen(cmd, cwd=vlib.ROOT, stdout=subprocess.PIPE, stderr=subprocess.PIPE, text=True))
     for pr in procs:
@@ -86,8 +86,13 @@ def reader_histories(rep, tier, seed, prefix, panics, shards, per_shard, ops=40,
     res = validate_traces(prefix, "Trace_Reader", "Trace_Reader.cfg", paths)
     _report_rejects(rep, "Trace_Reader", res["rejected"],
                     "vh reader-hist --seed %d (history id in reset record); ./check %s --replay <this file>" % (seed, rep.prop))
-    runs, nt, sample = _scan_runs(paths, lambda rs: any(r.get("ev") == "src" and r.get("kind") == "n" for r in rs)
-                                  and any(r.get("ev") == "op" and r.get("op") == "advance" and r.get("arg", 0) > 0 for r in rs))
+    if scan:
+        nontriv = lambda rs: (any(r.get("ev") == "src" and r.get("kind") == "n" for r in rs)
+                              and sum(1 for r in rs if r.get("ev") == "sret" and r.get("end", 0) > r.get("off", 0)) >= 2)
+    else:
+        nontriv = lambda rs: (any(r.get("ev") == "src" and r.get("kind") == "n" for r in rs)
+                              and any(r.get("ev") == "op" and r.get("op") == "advance" and r.get("arg", 0) > 0 for r in rs))
+    runs, nt, sample = _scan_runs(paths, nontriv)
     rep.cov["traces_validated_against_impl"] = rep.cov.get("traces_validated_against_impl", 0) + runs - len(res["rejected"])
     rep.cov["trace_records_validated"] = rep.cov.get("trace_records_validated", 0) + res["states"]
     rep.cov["evaluations"] = rep.cov.get("evaluations", 0) + runs
@@ -206,6 +211,106 @@ def check_C14(tier, seed):
                        "build with debug assertions and overflow checks")
     rep.assumptions += ["memory level (AddressSanitizer/Miri) is not observed: the specification sees indices, lengths and "
                         "exposed content only (DESIGN.md §8)"]
+    return rep.finish()
+
+
+# =============================================================================================== C16 / C13
+def check_C16(tier, seed):
+    rep = Report("C16", tier, seed, "model_checking")
+    res = tlc_mc("mc_scan", "MC_Scan", "MC_Scan_%s.cfg" % ("quick" if tier == QUICK else "thorough"), timeout=2400)
+    mc_must_pass(rep, res, "MC_Scan")
+    if tier == QUICK:
+        reader_histories(rep, tier, seed, "c16_", False, 12, 500, scan=1)
+    else:
+        reader_histories(rep, tier, seed, "c16_", False, 14, 8000, ops=60, maxlen=96, scan=1)
+    rep.cov["rule"] = ("model: MC_Scan enumerates every string over {space, tab, CR, LF, 'x', 'p'} up to the configured "
+                       "length, every offset and every pattern and checks that <Helper>Need is sufficient and necessary for "
+                       "<Helper>End; traces: reader histories over text-like streams with calls of tabs_or_spaces, newline, "
+                       "next_newline and fixed at random offsets interleaved with the other reader operations, under short "
+                       "reads; each call must return TextScan's result, leave the cursor alone and pull input only while "
+                       "the byte at offset Need is neither buffered nor known absent; non-trivial iff >= 2 helper calls "
+                       "advanced over something and a refill happened")
+    return rep.finish()
+
+
+def check_C13(tier, seed):
+    rep = Report("C13", tier, seed, "model_checking")
+    res = tlc_mc("mc_digits", "MC_Digits", "MC_Digits_%s.cfg" % ("quick" if tier == QUICK else "thorough"), timeout=2400)
+    mc_must_pass(rep, res, "MC_Digits")
+    if tier == QUICK:
+        reader_histories(rep, tier, seed, "c13d_", False, 8, 500, scan=2)
+        reader_histories(rep, tier, seed + 1, "c13r_", False, 8, 500, scan=2, release=True)
+    else:
+        reader_histories(rep, tier, seed, "c13d_", False, 14, 8000, ops=60, maxlen=96, scan=2)
+        reader_histories(rep, tier, seed + 1, "c13r_", False, 14, 8000, ops=60, maxlen=96, scan=2, release=True)
+    scan_vectors(rep, tier, seed)
+    rep.cov["rule"] = ("model: MC_Digits checks the reference semantics (value/overflow per type against 2^k bounds as digit "
+                       "sequences, lone '-' untouched); traces: (1) reader histories with the four digit scanners on all 12 "
+                       "integer types at random offsets and buffered amounts (fast path iff >= 8 bytes buffered), boundary "
+                       "numerals of every width, dev and release builds; (2) kernel vectors: every run length 0..8 x every "
+                       "lane x all 256 terminator bytes, and every digit string up to the configured length; each result is "
+                       "compared with TextScan!UDigits/SDigits computed from the input bytes")
+    rep.assumptions += ["the full 1.1e8 'every string of 0..8 digits' sweep is not run (DESIGN.md §8)"]
+    return rep.finish()
+
+
+def scan_vectors(rep, tier, seed):
+    _clean_traces("c13v_")
+    shards = 8
+    paths, procs = [], []
+    exe = vlib.build_harness(True)
+    for s in range(shards):
+        p = os.path.join(TRACES, "c13v_%d.ndjson" % s)
+        paths.append(p)
+        cmd = [exe, "scan-vectors", "--out", p, "--shard", str(s), "--shards", str(shards), "--seed", str(seed),
+               "--depth", "3" if tier == QUICK else "5"]
+        procs.append(subprocess.Popen(cmd, cwd=vlib.ROOT, stdout=subprocess.PIPE, stderr=subprocess.PIPE, text=True))
+    nvec = 0
+    for pr in procs:
+        out, err = pr.communicate(timeout=1800)
+        if pr.returncode != 0:
+            raise ToolError("vh scan-vectors failed: %s" % err[-1500:])
+        nvec += json.loads(out.strip().splitlines()[-1]).get("vectors", 0)
+    res = validate_traces("c13v_", "Trace_Reader", "Trace_Reader.cfg", paths)
+    _report_rejects(rep, "Trace_Reader", res["rejected"], "vh scan-vectors; ./check C13 --replay <this file>")
+    rep.cov["traces_validated_against_impl"] = rep.cov.get("traces_validated_against_impl", 0) + nvec - len(res["rejected"])
+    rep.cov["trace_records_validated"] = rep.cov.get("trace_records_validated", 0) + res["states"]
+    rep.cov["evaluations"] = rep.cov.get("evaluations", 0) + nvec
+    rep.cov["distinct_nontrivial"] = rep.cov.get("distinct_nontrivial", 0) + nvec
+    rep.cov["kernel_vectors"] = nvec
+    _clean_traces("c13v_")
+
+
+# =============================================================================================== C15
+def check_C15(tier, seed):
+    rep = Report("C15", tier, seed, "model_checking")
+    res = tlc_mc("mc_parsed", "MC_Parsed", "MC_Parsed.cfg", timeout=300, coverage=False)
+    mc_must_pass(rep, res, "MC_Parsed")
+    _clean_traces("c15_")
+    ok = True
+    total = 0
+    for release in (False, True):
+        p = os.path.join(TRACES, "c15_%s.ndjson" % ("rel" if release else "dbg"))
+        out = run_vh(["parsed", "--out", p], release=release)
+        total += out.get("cases", 0)
+        r = vlib.validate_trace_file("c15_" + ("rel" if release else "dbg"), "Trace_Parsed", "Trace_Parsed.cfg", p)
+        _report_rejects(rep, "Trace_Parsed", r["rejected"], "vh parsed; ./check C15 --replay <this file>")
+        if r["rejected"]:
+            ok = False
+        rep.cov["trace_records_validated"] = rep.cov.get("trace_records_validated", 0) + r["states"]
+        if not release:
+            with open(p) as fh:
+                lines = fh.read().splitlines()
+            rep.cov["samples"] += [lines[7], lines[23], lines[40]]
+    rep.cov["traces_validated_against_impl"] = total
+    rep.cov["evaluations"] = total
+    rep.cov["distinct_nontrivial"] = res["distinct"]
+    rep.cov["exhaustive"] = ok
+    rep.cov["rule"] = ("the domain (15 combinators x 3 input cases with 2 payloads each x every closure result) is finite: "
+                       "TLC checks the C15 laws on all %d cases; the harness evaluates the real combinator on every case "
+                       "with invocation-recording closures (dev and release builds) and Trace_Parsed requires result and "
+                       "invocations to equal Eval and the recorded cases to cover the whole domain" % res["distinct"])
+    _clean_traces("c15_")
     return rep.finish()
 
 
